@@ -384,10 +384,16 @@ func genC06(t *rapid.T, maxDepth int, quiescence bool) c06Case {
 	switch rapid.IntRange(0, 11).Draw(t, "src") {
 	case 8: // one ply before a forced reply (ep evasion / interposing double step / promotion / <= 2 moves)
 		fc := hx.GenForced(t)
+		start := fc.Fen
 		if fc.Pred != "" && rapid.IntRange(0, 3).Draw(t, "fromPred") != 0 {
-			return fixed(hx.Playout{Start: fc.Pred})
+			start = fc.Pred
 		}
-		return fixed(hx.Playout{Start: fc.Fen})
+		// forced replies at the fifty-move boundary: every quiet reply is a draw
+		if q := rc.MustParse(start); q.EP < 0 && rapid.Bool().Draw(t, "forcedHighClock") {
+			q.Half = rapid.IntRange(96, 99).Draw(t, "forcedHalf")
+			start = q.FEN()
+		}
+		return fixed(hx.Playout{Start: start})
 	case 9, 10: // shuffle history: the tree meets second / third occurrences at clocks 4, 8, 12 above the start clock
 		q := hx.GenStart(t, 6)
 		if q.EP < 0 {
@@ -416,7 +422,7 @@ func genC06(t *rapid.T, maxDepth int, quiescence bool) c06Case {
 	default:
 		p = rc.MustParse(hx.GenSeedFEN(t))
 	}
-	if p.EP < 0 && rapid.IntRange(0, 4).Draw(t, "highClock") == 0 {
+	if p.EP < 0 && rapid.IntRange(0, 2).Draw(t, "highClock") == 0 {
 		p.Half = rapid.IntRange(94, 99).Draw(t, "half")
 	}
 	c := c06Case{Quiescence: quiescence}
